@@ -107,8 +107,8 @@ claim("C03", "runtime monitor: bounded-progress oracle on a cycle-counting virtu
 claim("C04", "runtime monitor: shadow scope model evaluated at every interruption and every scope exit (absorb iff own cancel and no visible cancelled parent; cancelled_caught == absorbed; other exceptions pass, also inside groups)",
       "Held on every executed schedule: exhaustive scope chains of depth<=3 x shields x cancelled subsets x timing x canceller with a bystander task, plus seeded deep trees with shields toggled while active and synthetic mixed exception groups.",
       _TREE_NOTE, "DESIGN.md 5/C04")
-claim("C05", "runtime monitor: Task.cancelling() restored at scope/group exits in clean regions, no live loop handle of an exited scope, idle-loop cycle count, twin-differential runs of native asyncio constructs (timeout, TaskGroup, native cancel through a cancelled scope)",
-      "Held on every executed schedule: seeded programs, scope-history family (1-4 scopes in sequence x 0-5 swallowed re-deliveries x nesting x deadlines), native twins (4 scenarios x re-deliveries x nesting x children) on {stock, eager}.",
+claim("C05", "runtime monitor: Task.cancelling() restored at scope/group exits in clean regions (also from a non-zero baseline: tasks holding native requests), no live loop handle of an exited scope, idle-loop cycle count, twin-differential runs of native asyncio constructs (timeout, TaskGroup, native cancel through a cancelled scope)",
+      "Held on every executed schedule: seeded programs, scope-history family (1-4 scopes in sequence x 0-5 swallowed re-deliveries x nesting x deadlines), native twins (4 scenarios x re-deliveries x nesting x children; native children cancelling the parent's scope) on {stock, eager}; known finding F21 (eager factory, CPython < 3.13) classified by mechanism.",
       _TREE_NOTE, "DESIGN.md 5/C05")
 claim("C06", "runtime monitor on an exact virtual clock: interruption instants, flags and TimeoutError compared with the shadow model's discrete-event latching of deadlines; current_effective_deadline() probes",
       "Held on every executed program: exhaustive nests of <=3 deadline scopes x shields x 6-point deadline grid x 1-3 sleeps (plain, helper and reassign variants), plus seeded deadline-heavy programs with move_on_*/fail_* helpers, reassignments and timed agents. Not decided on uvloop (no virtual time).",
